@@ -23,11 +23,9 @@ def _checks(prop):
         "C13": [("jump_target_partition", props.c13_blocks)],
         "C14": [("iteration_complete", props.c14_iteration)],
     }
-    try:
-        from . import props2
-        table.update(props2.CORPUS_CHECKS)
-    except ImportError:
-        pass
+    from . import props2
+    props2._load_more()
+    table.update(props2.CORPUS_CHECKS)
     return table.get(prop, [])
 
 
@@ -104,11 +102,9 @@ def main():
         if a.part in ("corpus", "all") and _checks(a.prop):
             out["parts"]["corpus"] = run_corpus(a.prop, a.tier, a.seed, a.jobs)
         if a.part in ("extra", "all"):
-            try:
-                from . import props2
-                extra = props2.EXTRA.get(a.prop, [])
-            except ImportError:
-                extra = []
+            from . import props2
+            props2._load_more()
+            extra = props2.EXTRA.get(a.prop, [])
             for name, fn in extra:
                 t1 = time.time()
                 res = fn(a.tier, a.seed)
